@@ -85,15 +85,17 @@ Proof. exact welcome_page_structure. Qed.
    (generated from mapproxy/service/templates by the translator), every `code` and `locator` literal that
    occurs at a RequestError call site (or None) and EVERY message:
    the document tokenises to fixed tokens tp, one text node, fixed tokens ts; tp and ts contain only tags and
-   white space, none is left open; the text node is white space ++ html.escape(message) ++ white space. *)
+   white space, none is left open; the text node is white space ++ html.escape(sanitised message) ++ white space,
+   where the sanitised message is the message with every character that XML 1.0 cannot represent replaced by
+   U+FFFD (xml_sanitize; identical to the message when it has no such character: xml_sanitize_keeps_xml_text). *)
 Theorem exception_doc_skeleton_fixed :
   forall t code loc,
     In t exception_templates -> In code (opt_strs exception_codes) -> In loc (opt_strs exception_locators) ->
     exists tp pre post ts,
       toks_blank tp = true /\ blank pre = true /\ blank post = true /\ toks_blank ts = true /\
       forall msg,
-        tokenize (exception_doc t msg code loc) = tp ++ Text (pre ++ html_escape msg ++ post) :: ts.
-Proof. exact exception_documents_fixed. Qed.
+        tokenize (exception_doc t msg code loc) = tp ++ Text (pre ++ html_escape (xml_sanitize msg) ++ post) :: ts.
+Proof. exact exception_doc_fixed. Qed.
 
 (* Consequence 1: the element skeleton (all tags with their attributes, in order) is that of the document
    for the empty message. *)
@@ -102,10 +104,10 @@ Theorem exception_doc_same_skeleton :
     In t exception_templates -> In code (opt_strs exception_codes) -> In loc (opt_strs exception_locators) ->
     forall msg,
       skeleton (tokenize (exception_doc t msg code loc)) = skeleton (tokenize (exception_doc t [] code loc)).
-Proof. exact exception_documents_same_skeleton. Qed.
+Proof. exact exception_doc_skeleton. Qed.
 
-(* Consequence 2: the single non-blank text node decodes to the message itself (up to the template's own
-   white space around the placeholder). *)
+(* Consequence 2: the single non-blank text node decodes to the (sanitised) message itself (up to the
+   template's own white space around the placeholder). *)
 Theorem exception_doc_text_is_message :
   forall t code loc,
     In t exception_templates -> In code (opt_strs exception_codes) -> In loc (opt_strs exception_locators) ->
@@ -113,8 +115,8 @@ Theorem exception_doc_text_is_message :
       toks_blank tp = true /\ blank pre = true /\ blank post = true /\ toks_blank ts = true /\
       forall msg, exists raw,
         tokenize (exception_doc t msg code loc) = tp ++ Text raw :: ts /\
-        unescape raw = pre ++ msg ++ post.
-Proof. exact exception_documents_text. Qed.
+        unescape raw = pre ++ xml_sanitize msg ++ post.
+Proof. exact exception_doc_text. Qed.
 
 (* The values that reach the attributes code= / exceptionCode= / locator= are literals of the source (the
    translator refuses any RequestError call site with a non-literal code or locator) and none of them
@@ -130,41 +132,21 @@ Theorem exception_doc_well_nested :
   forall t code loc msg,
     In t exception_templates -> In code (opt_strs exception_codes) -> In loc (opt_strs exception_locators) ->
     well_nested (tokenize (exception_doc t msg code loc)) = true.
-Proof. exact exception_documents_well_nested. Qed.
+Proof. exact exception_doc_nested. Qed.
 
-(* Characters: if the message consists of characters that XML 1.0 can represent, so does the whole document
-   (the templates and the entities add none).  The hypothesis is needed: *)
+(* Characters: every character of every exception document is a character that XML 1.0 can represent - for
+   EVERY message (control characters, U+FFFE/U+FFFF and lone surrogates of the request are replaced by U+FFFD
+   before escaping).  This was finding C18-a; it holds without hypothesis since the render methods sanitise. *)
 Theorem exception_doc_xml_chars :
   forall t code loc msg,
     In t exception_templates -> In code (opt_strs exception_codes) -> In loc (opt_strs exception_locators) ->
-    (forall c, In c msg -> xml_char c = true) ->
     forall c, In c (exception_doc t msg code loc) -> xml_char c = true.
-Proof. exact exception_documents_xml_chars. Qed.
+Proof. exact exception_doc_all_xml_chars. Qed.
 
-(* ... html.escape passes control characters such as U+0001 through, so a request value containing %01 yields
-   a document that no XML parser accepts (known finding `xml-illegal-character`, proposed_fixes/C18-xml-illegal-characters.md). *)
-Theorem exception_doc_xml_chars_refuted :
-  exists t msg c, In t exception_templates /\ In c (exception_doc t msg None None) /\ xml_char c = false.
-Proof. exact exception_documents_xml_chars_refuted. Qed.
-
-(* The repair: when the message is first passed through xml_sanitize (every non-XML character replaced by
-   U+FFFD; the translator selects this as `msg_filter` once the render methods do it), the statement holds for
-   EVERY message; messages made of XML characters are not altered. *)
-Theorem exception_doc_xml_chars_after_repair :
-  forall t code loc msg,
-    In t exception_templates -> In code (opt_strs exception_codes) -> In loc (opt_strs exception_locators) ->
-    forall c, In c (exception_doc t (xml_sanitize msg) code loc) -> xml_char c = true.
-Proof. exact exception_documents_sanitized_xml_chars. Qed.
-
+(* Sanitising does not touch text that XML can represent, and never changes the length. *)
 Theorem xml_sanitize_keeps_xml_text :
   forall s, (forall c, In c s -> xml_char c = true) -> xml_sanitize s = s.
 Proof. exact xml_sanitize_id. Qed.
 
-(* Text inserted into an attribute value WITHOUT removing the quote character changes the element structure:
-   the hypothesis `escape_html` of insertion_stays_in_attribute is needed.  The capabilities templates insert
-   the request host / scheme this way (known finding `capabilities,host-header-markup`,
-   proposed_fixes/C18-capabilities-host-markup.md). *)
-Theorem attribute_insertion_unescaped_refuted :
-  exists P S E, attr_position c_quot P /\
-    skeleton (tokenize (P ++ E ++ S)) <> skeleton (tokenize (P ++ [] ++ S)).
-Proof. exact unescaped_attribute_refuted. Qed.
+Theorem xml_sanitize_same_length : forall s, length (xml_sanitize s) = length s.
+Proof. exact xml_sanitize_length. Qed.
